@@ -33,23 +33,30 @@ fn any_store(n_ks: usize, n_rows: usize, fail_list: bool, fail_last: bool) -> Gh
 }
 
 /// counts and failure points are CONCRETE per harness (row contents -- ids, stamps, tombstone flags -- symbolic)
+/// what the run exhibited, for the per-harness vacuity covers
+struct Outcome {
+    ok: bool,
+    tomb_first: bool,
+    same_ts: bool,
+}
 macro_rules! load_harness {
-    ($name:ident, $ks:expr, $rows:expr, $fl:expr, $flast:expr) => {
+    ($name:ident, $ks:expr, $rows:expr, $fl:expr, $flast:expr, |$o:ident| [$($cov:expr),*]) => {
         #[kani::proof]
-        #[kani::unwind(12)]
+        #[kani::unwind(5)]
         fn $name() {
-            load_contract($ks, $rows, $fl, $flast);
+            let $o = load_contract($ks, $rows, $fl, $flast);
+            $( kani::cover!($cov); )*
         }
     };
 }
-load_harness!(gr_load_1x2, 1, 2, false, false);
-load_harness!(gr_load_2x1, 2, 1, false, false);
-load_harness!(gr_load_2x2, 2, 2, false, false);
-load_harness!(gr_load_1x1, 1, 1, false, false);
-load_harness!(gr_load_0, 0, 0, false, false);
-load_harness!(gr_load_fail_list, 2, 1, true, false);
-load_harness!(gr_load_fail_rows, 2, 1, false, true);
-fn load_contract(max_ks: usize, max_rows: usize, fail_list: bool, fail_last: bool) {
+load_harness!(gr_load_1x2, 1, 2, false, false, |o| [o.ok, o.ok && o.tomb_first, o.ok && o.same_ts]);
+load_harness!(gr_load_2x1, 2, 1, false, false, |o| [o.ok]);
+load_harness!(gr_load_2x2, 2, 2, false, false, |o| [o.ok, o.ok && o.tomb_first, o.ok && o.same_ts]);
+load_harness!(gr_load_1x1, 1, 1, false, false, |o| [o.ok]);
+load_harness!(gr_load_0, 0, 0, false, false, |o| [o.ok]);
+load_harness!(gr_load_fail_list, 2, 1, true, false, |o| [!o.ok]);
+load_harness!(gr_load_fail_rows, 2, 1, false, true, |o| [!o.ok]);
+fn load_contract(max_ks: usize, max_rows: usize, fail_list: bool, fail_last: bool) -> Outcome {
     unsafe { LOADED = Some(vcoll::vvec::VVec::new()) };
     let g: Group = KeyspaceGroup {
         clock: Clock,
@@ -63,54 +70,52 @@ fn load_contract(max_ks: usize, max_rows: usize, fail_list: bool, fail_last: boo
     if r.is_err() {
         assert!(spawned.len() == 0, "a failed load hands no partial data to load_states");
         assert!(fail_list || fail_last, "a load only fails when storage fails");
-        kani::cover!(true, "failed load");
-        return;
+        return Outcome { ok: false, tomb_first: false, same_ts: false };
     }
     assert!(spawned.len() == st.n_ks, "one state per keyspace storage lists is handed to load_states");
+    // counts are concrete per harness: index directly (a generic nested search over the recorded states cost
+    // 1.8 M symbolic-execution steps; the direct form states the same contract)
     let mut i = 0;
-    while i < MAX_KS {
-        if i < st.n_ks {
-            let name = KS_NAMES[i].vkey();
-            // the state handed to the actor of keyspace i
-            let mut found = 0;
-            for sp in spawned.iter() {
-                if sp.name == name {
-                    found += 1;
-                    // every stored row is replayed exactly once through source 0, with its stamp and kind ...
-                    let mut j = 0;
-                    while j < MAX_ROWS {
-                        if j < st.n_rows[i] {
-                            let (id, ts, tomb) = st.rows[i][j];
-                            let want = RecOp { key: id, stamp: ts.as_u64(), is_delete: tomb, source: 0 };
-                            let mut c = 0;
-                            for op in sp.state.ops.iter() {
-                                if *op == want {
-                                    c += 1;
-                                }
-                            }
-                            assert!(c == 1, "every stored row is replayed into the rebuilt set exactly once, with its own timestamp and kind");
-                        }
-                        j += 1;
-                    }
-                    // ... nothing else is, and the replay is in timestamp order
-                    assert!(sp.state.ops.len() == st.n_rows[i], "nothing but the stored rows is replayed");
-                    if sp.state.ops.len() == 2 {
-                        assert!(sp.state.ops[0].stamp <= sp.state.ops[1].stamp, "rows are replayed in timestamp order");
-                    }
-                }
+    while i < max_ks {
+        let name = KS_NAMES[i].0;
+        // the state handed to the actor of keyspace i: exactly one of the recorded states carries its name
+        let mut at = usize::MAX;
+        let mut found = 0;
+        let mut s = 0;
+        while s < max_ks {
+            if spawned[s].name == name {
+                found += 1;
+                at = s;
             }
-            assert!(found == 1);
+            s += 1;
+        }
+        assert!(found == 1, "exactly one state per listed keyspace");
+        let ops = &spawned[at].state.ops;
+        assert!(ops.len() == max_rows, "nothing but the stored rows is replayed");
+        let want = |j: usize| {
+            let (id, ts, tomb) = st.rows[i][j];
+            RecOp { key: id, stamp: ts.as_u64(), is_delete: tomb, source: 0 }
+        };
+        if max_rows == 1 {
+            assert!(ops[0] == want(0), "every stored row is replayed into the rebuilt set exactly once, with its own timestamp and kind");
+        }
+        if max_rows == 2 {
+            let (a, b) = (ops[0], ops[1]);
+            let (w0, w1) = (want(0), want(1));
+            assert!((a == w0 && b == w1) || (a == w1 && b == w0), "every stored row is replayed into the rebuilt set exactly once, with its own timestamp and kind");
+            assert!(a.stamp <= b.stamp, "rows are replayed in timestamp order");
         }
         i += 1;
     }
     assert!(!fail_list && !fail_last, "storage failures are reported");
-    kani::cover!(true, "successful load");
-    if max_rows == 2 {
-        kani::cover!(st.n_ks == 1 && st.n_rows[0] == 2 && st.rows[0][0].2 && !st.rows[0][1].2 && st.rows[0][0].1 > st.rows[0][1].1, "tombstone newer than a live row, listed first");
-        kani::cover!(st.n_ks == 1 && st.n_rows[0] == 2 && st.rows[0][0].1 == st.rows[0][1].1, "two rows sharing one timestamp (bulk write)");
+    // "tombstone newer than a live row, listed first" / "two rows sharing one timestamp (bulk write)"
+    let two = max_rows == 2 && max_ks >= 1;
+    Outcome {
+        ok: true,
+        tomb_first: two && st.rows[0][0].2 && !st.rows[0][1].2 && st.rows[0][0].1 > st.rows[0][1].1,
+        same_ts: two && st.rows[0][0].1 == st.rows[0][1].1,
     }
 }
-
 
 // native replay of Kani counterexamples (tools/replay.py writes the file)
 #[cfg(verif_replay)]
